@@ -539,6 +539,18 @@ def r7_fresh_returns(ctx: Ctx) -> None:
                             if not any(whys):
                                 continue
                             n += 1
+                            # a return under a test that says the value is not an array hands out an element, not an array
+                            def not_array(t: ast.expr, pol: bool) -> bool:
+                                if isinstance(t, ast.UnaryOp) and isinstance(t.op, ast.Not):
+                                    return not_array(t.operand, not pol)
+                                if isinstance(t, ast.Compare) and len(t.ops) == 1 and norm(t.left) == f'{v.id}.__class__' and norm(t.comparators[0]) == 'np.ndarray':
+                                    return (isinstance(t.ops[0], (ast.IsNot, ast.NotEq)) and pol) or (isinstance(t.ops[0], (ast.Is, ast.Eq)) and not pol)
+                                if isinstance(t, ast.Call) and call_name(t) == 'isinstance' and len(t.args) == 2 and norm(t.args[0]) == v.id and norm(t.args[1]) == 'np.ndarray':
+                                    return not pol
+                                return False
+                            if any(not_array(i.test, pol) for i, pol in _enclosing_tests_of(f.node, r)):
+                                ctx.ok(R, f, r, f'`{v.id}` is returned where it was tested not to be an array', key=key)
+                                continue
                             last_def = max(a.lineno for a in defs_v)
                             frz = [s for s in walk_local(f.node) if isinstance(s, ast.Assign) and norm(s.targets[0]) == f'{v.id}.flags.writeable' and isinstance(s.value, ast.Constant)
                                    and s.value.value is False and last_def <= s.lineno < r.lineno]
